@@ -159,7 +159,8 @@ ApplyRec(ws, r, s, maxq, unordered) ==
             THEN [Unsuppress(w3, e.path) EXCEPT !.uw[r.ino].st = "ending", !.uw[r.ino].endSeq = s,
                             !.uw[r.ino].how = IF mself THEN "move" ELSE "delete",
                             !.gonePaths = @ \cup {e.path},
-                            !.nontriv = @ \cup {"endofwatch"}]
+                            \* (queued while the kernel queue may be full: the record that ends the watch may never reach the library)
+                            !.nontriv = @ \cup {"endofwatch"} \cup (IF ws.ovf /\ ~certain THEN {"end_record_in_overflow"} ELSE {})]
             ELSE w3
       w5 == IF queued
             \* (a record for a watch whose end is pending may or may not have been queued - the library may have
@@ -462,7 +463,8 @@ CheckWL(ws, wl, wlnil) ==
       w1 == IF Len(wl) # Cardinality(set) THEN Bad(ws, {"C04", "C07"}, "watchlist_duplicate") ELSE ws
       w2 == IF liveP \ set # {} THEN Bad(w1, {"C04"} \cup (IF (liveP \ set) \cap ws.readded # {} THEN {"C09"} ELSE {}), "watchlist_missing") ELSE w1
       w3 == IF set \ allP # {}
-            THEN Bad(w2, {"C04"} \cup (IF (set \ allP) \cap ws.gonePaths # {} THEN {"C09"} ELSE {}), "watchlist_extra") ELSE w2
+            THEN Bad(w2, {"C04"} \cup (IF (set \ allP) \cap ws.gonePaths # {} THEN {"C09"} ELSE {}),
+                     "watchlist_extra" \o (IF "end_record_in_overflow" \in ws.nontriv THEN ":end_record_lost_in_overflow" ELSE "")) ELSE w2
       U  == {j \in DOMAIN ws.uw : ws.uw[j].st = "unsure"}
       Ugone == {j \in U : ws.uw[j].path \notin set}
   IN [w3 EXCEPT !.uw = [j \in (DOMAIN @) \ Ugone |-> IF j \in U THEN [@[j] EXCEPT !.st = "live"] ELSE @[j]],
@@ -507,6 +509,6 @@ CheckObs(ws00, o, defcap) ==
             THEN Bad(w2, {"C12", "C04"}, "tables_disagree" \o (IF "repoint_alias" \in ws.nontriv THEN ":after_alias_repoint" ELSE ""))
             ELSE w2
       w4 == IF ~ws.recursive /\ ~o.locked /\ o.nwd # -1 /\ (o.nwd < Cardinality(liveI) \/ o.nwd > Cardinality(allI)) /\ o.nwd = o.npath
-            THEN Bad(w3, {"C12"}, "table_size") ELSE w3
+            THEN Bad(w3, {"C12"}, "table_size" \o (IF "end_record_in_overflow" \in ws.nontriv THEN ":end_record_lost_in_overflow" ELSE "")) ELSE w3
   IN w4
 =============================================================================
